@@ -307,6 +307,41 @@ def grouped_cases(ctx, rng, scale, failures, dist):
     return ev
 
 
+def float64_detail_cases(ctx, rng, failures, dist):
+    """float64 inputs whose fine detail lies BELOW the float32 resolution of the coarse part: x = c0[i0] + c1[i1] + c2[i2] summed exactly in float64 with
+    layer codebooks of scales 1e3 / 1e-6 / 1e-8 (written through the public codebook setter).  Layer k quantizes x minus the codes of the earlier
+    layers: the residual must be formed in the input's precision, the returned indices are (i0, i1, i2) and the codes those entries."""
+    import torch
+    from vector_quantize_pytorch import ResidualVQ, GroupedResidualVQ
+    ev = 0
+    for ci in range(4 if not ctx.thorough else 20):
+        d, K = 2, 4
+        try:
+            q = ResidualVQ(dim=d, num_quantizers=3, codebook_size=K, decay=0.5)
+            scales = [1e3, 1e-6, 1e-8]
+            books = []
+            for li, layer in enumerate(q.layers):
+                cbk = torch.tensor([[float(rng.randint(-8, 8)), float(rng.randint(-8, 8))] for _ in range(K)]) + torch.arange(K)[:, None] * 20.0
+                cbk = (cbk * scales[li]).float()
+                layer.codebook = cbk
+                books.append(layer.codebook.reshape(K, d).double())
+            q.train(ci % 2 == 1)
+            want = torch.tensor([[rng.randrange(K) for _ in range(3)] for _ in range(6)])
+            x64 = sum(books[li][want[:, li]] for li in range(3)).reshape(2, 3, d)
+            with torch.no_grad():
+                out, idx, _ = q(x64, freeze_codebook=True)
+            ev += 1
+            dist['float64_fine_detail_calls'] = dist.get('float64_fine_detail_calls', 0) + 1
+            got = idx.reshape(6, 3)
+            if not torch.equal(got, want):
+                layers_bad = [li for li in range(3) if not torch.equal(got[:, li], want[:, li])]
+                failures.append({'key': 'rvq:float64-detail:layer-index-not-nearest-for-its-residual', 'what': f'ResidualVQ(3 layers, codebook scales 1e3 / 1e-6 / 1e-8) on a float64 input that is an exact sum of one code per layer: '
+                                 f'layers {layers_bad} did not return the code the residual sits on (the residual was not formed in the input precision)', 'case': dict(part='float64-detail', train=bool(ci % 2))})
+        except Exception as ex:
+            failures.append({'key': f'rvq:float64-detail:exception:{type(ex).__name__}', 'what': repr(ex), 'case': dict(part='float64-detail')})
+    return ev
+
+
 def correspond(ctx, scale):
     rng = ctx.rng
     cases, meta, failures, samples = [], [], [], []
@@ -314,6 +349,8 @@ def correspond(ctx, scale):
     nt = rvq_cases(ctx, rng, scale, cases, meta, failures, dist)
     ev2, nt2 = scalar_and_sim_cases(ctx, rng, scale, failures, dist)
     ev3 = grouped_cases(ctx, rng, scale, failures, dist)
+    ev4 = float64_detail_cases(ctx, rng, failures, dist)
+    ev3 += ev4
     bad, broken = core.run_cases(ctx, 'c06', HEADER, cases, per_file=12)
     for name, out in broken:
         failures.append({'key': f'coq-eval:{name}', 'what': 'case file did not evaluate: ' + out, 'case': {'file': name}})
